@@ -9,6 +9,7 @@ import (
 	"fmt"
 	"net"
 	"runtime"
+	"runtime/metrics"
 	"strconv"
 	"strings"
 	"sync"
@@ -76,7 +77,7 @@ func init() {
 		Rule: "each run draws a configuration (decode: ReadPacket alone / serve: raw bytes into the wired node's adapter read loop / dispatch: decoded packets handed to SessionManager.HandlePacket), " +
 			"a hostile byte stream of 1-10 segments (hand-framed packets over all dispatcher types and random type/flag bytes with valid-shaped, wrong-typed, deeply nested, huge-number, null, truncated, non-UTF-8 or random JSON; " +
 			"command packets over all command types; gzip-flagged bodies: valid, garbage, concatenated members, truncated trailer, bad CRC, 1-4 MiB of zeros and (1 run in 50) a bomb inflating to 24-80 MiB (256 MiB in thorough); " +
-			"adversarial length fields 0/1/2^31/2^32-1/max-1/max/max+1/12*max with a short body; raw random bytes; bit-flipped frames; 1 run in 8 carries bodies of 1-16 MiB), a truncation offset, " +
+			"adversarial length fields 0/1/2^31/2^32-1/max-1/max/max+1/12*max with a short body; raw random bytes; floods of up to 800 empty five-byte packets; bit-flipped frames; 1 run in 8 carries bodies of 1-16 MiB), a truncation offset, " +
 			"the transport segmentation law of the server's reads, how the stream ends (half-close, close, reset, 10 minute stall then close), pauses between segments, optionally a legitimate second client, a first-connect by the hostile peer, and storage errors (k-th operation or 1/8 of operations fail). " +
 			"Non-trivial: the real decoder/dispatcher actually consumed at least one segment that is not a well-formed request (the server read past its first byte, or HandlePacket was called with it); distinct = distinct schedule hashes of such runs.",
 		Real: []string{"internal/stream StreamProcessor.ReadPacket (+buffer pool)", "internal/stream/compression GzipReader", "internal/protocol/adapter BaseAdapter.handleConnection/connectionReadLoop",
@@ -87,7 +88,7 @@ func init() {
 			"sync.Pool is modelled by a per-run free list that is never emptied by GC, so up to 2 large pooled buffers per run are tolerated by the retention bound",
 			"a oneway/ignored packet may legitimately produce neither an error nor a reply; only crashing, not returning, or over-allocating is flagged for HandlePacket",
 			"live heap is measured as HeapAlloc after two forced GCs (more exact than HeapInuse)",
-			"a server that issues more than 16 further Reads after a Read returned EOF/reset/closed is spinning; a task that takes more than ~150k+12/byte scheduler steps without ever blocking is spinning (the second detector needs a fair scheduler and is inactive under a minimised all-zero choice stream)",
+			"a server that issues more than 16 further Reads after a Read returned EOF/reset/closed is spinning; a task that takes more than ~200k+60/byte scheduler steps without ever blocking is spinning (the second detector needs a fair scheduler and is inactive under a minimised all-zero choice stream)",
 		},
 		Opt: func(tier string) simrt.Options { return simrt.Options{MaxSteps: 6000000, MaxIdle: 96 * time.Hour} },
 		Run: c05Run,
@@ -565,7 +566,11 @@ func (g *c05gen) seg(direct bool) c05seg {
 		b[0] = t
 		binary.BigEndian.PutUint32(b[1:], l)
 		return c05seg{b: append(b, tail...), desc: fmt.Sprintf("len-field=%d(t=%#x)+%dB", l, t, len(tail)), hostile: true, big: big}
-	case k == 10: // raw random bytes
+	case k == 10: // raw random bytes, or a flood of the smallest possible packets
+		if c.Intn(4, "seg.flood") == 3 {
+			n := 5 * (1 + c.Intn(800, "seg.floodn"))
+			return c05seg{b: make([]byte, n), desc: fmt.Sprintf("zeros[%d]", n), hostile: true}
+		}
 		b := make([]byte, 1+c.Intn(64, "seg.rawn"))
 		c.Bytes(b, "seg.raw")
 		return c05seg{b: b, desc: fmt.Sprintf("raw[%d]", len(b)), hostile: true}
@@ -605,7 +610,7 @@ func (g *c05gen) seg(direct bool) c05seg {
 		case 0x10:
 			body = []byte(`{"CommandType":50,"CommandBody":"` + strings.Repeat("b", n-35) + `"}`)
 		default:
-			body = make([]byte, n)
+			body = bytes.Repeat([]byte{0xA5}, n)
 		}
 		return c05seg{b: c05Frame(t, body), desc: fmt.Sprintf("big-body(t=%#x,%d)", t, len(body)), hostile: true, framed: true, big: true}
 	}
@@ -637,9 +642,33 @@ type c05conn struct {
 	term  error
 	post  int
 	spun  bool
+
+	// allocation sampled at every Read the server issues: a packet needs at
+	// least one Read, so whatever is allocated between two consecutive Reads
+	// belongs to the decoding and dispatching of at most one packet.
+	lastAlloc uint64
+	lastOff   int64
+	maxDelta  uint64
+	maxFrom   int64 // bytes the server had consumed when the worst interval began
+	maxTo     int64
+	reads     int
+}
+
+// sample closes the current inter-Read interval.
+func (c *c05conn) sample() {
+	now := c05TotalAlloc()
+	off := c.Conn.BytesRead()
+	if c.lastAlloc != 0 && now > c.lastAlloc {
+		if d := now - c.lastAlloc; d > c.maxDelta {
+			c.maxDelta, c.maxFrom, c.maxTo = d, c.lastOff, off
+		}
+	}
+	c.lastAlloc, c.lastOff = now, off
 }
 
 func (c *c05conn) Read(p []byte) (int, error) {
+	c.reads++
+	c.sample()
 	if c.term != nil {
 		c.post++
 		if c.post > c05SpinLimit {
@@ -680,10 +709,19 @@ func c05ConnID(node *simnode.Node, sw *c05conn) string {
 	return ""
 }
 
+// c05TotalAlloc is the cumulative number of heap bytes allocated by the
+// process (runtime/metrics: no stop-the-world, so it can be sampled at every
+// transport Read; small-object counts may lag by a few spans, far below the
+// bound's resolution).
 func c05TotalAlloc() uint64 {
-	var m runtime.MemStats
-	runtime.ReadMemStats(&m)
-	return m.TotalAlloc
+	s := []metrics.Sample{{Name: "/gc/heap/allocs:bytes"}}
+	metrics.Read(s)
+	if s[0].Value.Kind() != metrics.KindUint64 {
+		var m runtime.MemStats
+		runtime.ReadMemStats(&m)
+		return m.TotalAlloc
+	}
+	return s[0].Value.Uint64()
 }
 
 func c05Live() uint64 {
@@ -959,7 +997,7 @@ func c05Decode(w *simrt.World, g *c05gen) {
 	if p.cut {
 		w.Fault("net.truncated")
 	}
-	budget := 100000 + 12*len(p.bytes) // steps other tasks may take without blocking
+	budget := 200000 + 60*len(p.bytes) // steps other tasks may take without blocking
 	if budget > 2500000 {
 		budget = 2500000
 	}
@@ -978,6 +1016,11 @@ func c05Decode(w *simrt.World, g *c05gen) {
 		a.Close()
 	}
 	r := c05Await(w, "main", rt.Done, c05TermBound, budget)
+	if w.Free() {
+		a.Close()
+		b.Close()
+		return // run cut by the step cap
+	}
 	if bw.spun {
 		a.Close()
 		b.Close()
@@ -1075,7 +1118,7 @@ func c05Node(w *simrt.World, g *c05gen, direct bool) {
 	case 3:
 		st.FailNum, st.FailDen = 1, 8
 	}
-	budget := 150000 + 12*len(p.bytes)
+	budget := 250000 + 60*len(p.bytes)
 	if budget > 2500000 {
 		budget = 2500000
 	}
@@ -1116,6 +1159,9 @@ func c05Node(w *simrt.World, g *c05gen, direct bool) {
 			before := cl.Srv.BytesWritten()
 			r := c05Await(w, "main", ht.Done, c05DispatchBound, budget)
 			delta = c05TotalAlloc() - m0
+			if w.Free() {
+				return
+			}
 			if s.hostile {
 				hostileSeen = true
 			}
@@ -1176,8 +1222,12 @@ func c05Node(w *simrt.World, g *c05gen, direct bool) {
 				cl.Srv.Close() // break the loop, or it would spin for ever once the run has ended
 				return
 			}
-			if delta > c05AllocBound {
-				w.Violationf("C05:alloc:serve:"+c05WindowClass(p, i), "while the server processed segment #%d %s (and whatever was still queued) the process allocated %d MiB (bound %d MiB = 8 x max body)", i, s.desc, delta>>20, c05AllocBound>>20)
+			if w.Free() {
+				return // the run was cut (step cap): nothing measured from here on means anything
+			}
+			if c05ServeAlloc(w, p, sw, i) {
+				cl.Conn.Close()
+				return
 			}
 			if delta > 1<<20 {
 				w.Probe("serve.alloc>1MiB")
@@ -1190,7 +1240,6 @@ func c05Node(w *simrt.World, g *c05gen, direct bool) {
 		if p.cut {
 			w.Fault("net.truncated")
 		}
-		m0 := c05TotalAlloc()
 		switch p.end {
 		case 0:
 			cl.Conn.CloseWrite()
@@ -1214,8 +1263,13 @@ func c05Node(w *simrt.World, g *c05gen, direct bool) {
 			cl.Conn.Close()
 		}
 		r := c05Await(w, "main", srvClosed, c05TermBound, budget)
-		if delta := c05TotalAlloc() - m0; delta > c05AllocBound {
-			w.Violationf("C05:alloc:serve:"+c05WindowClass(p, len(p.segs)-1), "after the stream ended the process allocated %d MiB (bound %d MiB)", delta>>20, c05AllocBound>>20)
+		if w.Free() {
+			return
+		}
+		sw.sample()
+		if c05ServeAlloc(w, p, sw, len(p.segs)-1) {
+			cl.Conn.Close()
+			return
 		}
 		if r != "ok" {
 			cls := map[string]string{"spin": "spin", "timeout": "blocked"}[r]
@@ -1245,6 +1299,20 @@ func c05Node(w *simrt.World, g *c05gen, direct bool) {
 		}
 		w.Probe("retention.checked")
 	}
+}
+
+// c05ServeAlloc checks the serve-layer allocation oracle: the most that was
+// allocated between two consecutive transport Reads of the server (= while it
+// decoded and dispatched at most one packet). The windows between two harness
+// writes are NOT the yardstick: one window may cover thousands of tiny packets
+// (and as many scheduler steps of harness bookkeeping).
+func c05ServeAlloc(w *simrt.World, p *c05plan, sw *c05conn, upto int) bool {
+	if sw.maxDelta <= c05AllocBound {
+		return false
+	}
+	w.Violationf("C05:alloc:serve:"+c05WindowClass(p, upto), "between two consecutive Reads on the transport (server had consumed %d, then %d bytes of the stream; at most one packet is decoded and dispatched in between) the process allocated %d MiB (bound %d MiB = 8 x max body)\nbytes %d.. fall into segment %s",
+		sw.maxFrom, sw.maxTo, sw.maxDelta>>20, c05AllocBound>>20, sw.maxFrom, c05SegDesc(p, sw.maxFrom))
+	return true
 }
 
 func c05TypeClass(p *packet.TransferPacket) string {
